@@ -750,3 +750,6 @@ def gen_loader_scripts():
 GENERATORS = {
     "LoaderScripts": gen_loader_scripts,
 }
+
+# properties whose checks need these generated files (a failure here only breaks those)
+SERVES = ['C09', 'C10']
